@@ -15,7 +15,7 @@ from .sem import Unsupported, eval_table
 IDX0 = 10  # index names in the spec are 10, 11, 12, ...
 
 
-def mc_module(name, pool, lits, zeros, idxpool, opset, maxnodes, maxrank, maxdim, finalops=(), levels=()):
+def mc_module(name, pool, lits, zeros, idxpool, opset, maxnodes, maxrank, maxdim, finalops=(), levels=(), replmaps=()):
     lit_txt = "<<" + ", ".join(f'[nm |-> "{n}", v |-> {to_tla(Cx.of(v))}]' for n, v in lits) + ">>"
     zero_txt = "<<" + ", ".join("<<" + ", ".join(map(str, z)) + ">>" for z in zeros) + ">>"
     return f"""---- MODULE {name} ----
@@ -28,6 +28,7 @@ MC_Zeros == {zero_txt}
 MC_IdxPool == <<{", ".join(map(str, idxpool))}>>
 MC_OpSet == {{{", ".join(json.dumps(o) for o in sorted(opset))}}}
 MC_FinalOps == {{{", ".join(json.dumps(o) for o in sorted(finalops))}}}
+MC_ReplMaps == <<{", ".join(f"[src |-> {m['src']}, sub |-> <<{', '.join(map(str, m['sub']))}>>]" for m in replmaps)}>>
 MC_OpLevels == <<{", ".join("{" + ", ".join(json.dumps(o) for o in sorted(l)) + "}" for l in levels)}>>
 ====
 """
@@ -45,6 +46,7 @@ def mc_cfg(pool, maxnodes, maxrank, maxdim, final_only=False, mikinds=("fixed", 
         "OpSet <- MC_OpSet",
         "FinalOps <- MC_FinalOps",
         "OpLevels <- MC_OpLevels",
+        "ReplMaps <- MC_ReplMaps",
         f"DumpFinalOnly = {'TRUE' if final_only else 'FALSE'}",
         "MiKinds = {" + ", ".join(json.dumps(k) for k in mikinds) + "}",
         f"MaxNodes = {maxnodes}",
@@ -92,6 +94,21 @@ class World:
             self.envs.append(TermEnv(vals))
         self.cache = {}
         self.guard_inputs = False
+        self.replmaps = getattr(pool, "replmaps", [])
+
+    def image(self, m):
+        """The image expression of a replacement map, built through the public API."""
+        t = {name: obj for obj, (name, _) in zip(self.terms, self.pool.terminals)}
+        kind = m["img"][0]
+        if kind == "term":
+            return t[m["img"][1]]
+        if kind == "scale":
+            return m["img"][1] * t[m["img"][2]]
+        if kind == "sum":
+            return t[m["img"][1]] + t[m["img"][2]]
+        if kind == "prod":
+            return t[m["img"][1]] * t[m["img"][2]]
+        raise MachineryError("unknown image kind " + kind)
 
     def mi(self, mi):
         out = []
@@ -145,6 +162,9 @@ def apply_op(w, op, args, mi):
         return ufl.sign(a)
     if op == "variable":
         return ufl.variable(a)
+    if op == "replace":
+        m = w.replmaps[mi[0] - 1]
+        return ufl.replace(a, {w.terms[m["src"] - 1]: w.image(m)})
     if op == "index":
         return a[w.mi(mi)]
     if op == "as_tensor":
